@@ -8,6 +8,14 @@
 // Snapshot).  No oracle here: the TLA+ trace specification spec/kad/KadTrace.tla
 // judges the log.
 //
+// Churn (C23): a "closest" / "closestn" operation may carry "gates": while the
+// walk of the call stands on its k-th visit the listed events (connected,
+// disconnected, ...) are executed, on the walking goroutine, from inside the
+// injectable Options.ReachabilityFunc (par.allreach), which the topology calls
+// once per visited peer of a reachability-filtered walk.  Such a call is logged
+// as "wbegin", the events (with `during`), then the call's own event (`conc`,
+// `visits`, `seen`, `left` = gates the walk never reached).
+//
 // kademlia.New rewrites package-level saturation thresholds from
 // Options.BinMaxPeers.  Scenarios with different settings therefore never share
 // a process: the parent groups scenarios by par.binmax and runs one child of
@@ -57,6 +65,9 @@ type node struct {
 	ab    addressbook.Interface
 	mu    sync.Mutex
 	discs int // number of p2p.Disconnect calls made by the topology
+	// onVisit, when set, is called from Options.ReachabilityFunc, i.e. once for every peer a
+	// reachability-filtered walk of the connected peers looks at (scheduling gate, see runCall)
+	onVisit func(boson.Address)
 }
 
 var (
@@ -89,8 +100,14 @@ func newNode(space *kadaddr.Space, binmax int, allreach bool) (*node, error) {
 		BinMaxPeers: binmax,
 	}
 	if allreach {
-		// as TestOversaturation does: every peer counts as reachable
-		opts.ReachabilityFunc = func(boson.Address) bool { return false }
+		// as TestOversaturation does: every peer counts as reachable.  The function is also the
+		// place where a walk over the connected peers can be held while events happen.
+		opts.ReachabilityFunc = func(a boson.Address) bool {
+			if f := n.onVisit; f != nil {
+				f(a)
+			}
+			return false
+		}
 	}
 	kad, err := kademlia.New(space.Base(), n.ab, discmock.NewDiscovery(), p2ps, ppm, nil, nil, db, logger, subscribe.NewSubPub(), opts)
 	if err != nil {
@@ -240,9 +257,63 @@ func runScenario(sc kit.Scenario, out *kit.Out) error {
 	// bookkeeping of the driver's own calls (not an oracle): serial of the instance and
 	// the number of non-public reachability reports made to it
 	inst, dem := 0, 0
-	for _, op := range sc.Ops {
+	var step func(op map[string]interface{}, during int) error
+	// gated runs a ClosestPeer(s) call whose operation carries "gates": while the walk stands on its
+	// k-th visit (k-th call of Options.ReachabilityFunc made by this call) the events listed for k are
+	// executed and logged, on this goroutine, exactly as top-level operations are; the walk resumes
+	// afterwards.  Visits made by those events themselves (depth recomputation) do not count.
+	gated := func(op map[string]interface{}, begin kit.Ev, call func()) (kit.Ev, error) {
+		if !allreach {
+			return nil, fmt.Errorf("gates need par.allreach (Options.ReachabilityFunc)")
+		}
+		type gate struct {
+			k int
+			o map[string]interface{}
+		}
+		gates := []gate{}
+		for _, gv := range kit.List(op, "gates") {
+			gm, _ := gv.(map[string]interface{})
+			o, _ := gm["o"].(map[string]interface{})
+			if o == nil {
+				return nil, fmt.Errorf("malformed gate %v", gv)
+			}
+			gates = append(gates, gate{kit.Int(gm, "k"), o})
+		}
+		begin["op"] = "wbegin"
+		begin["kind"] = kit.Str(op, "op")
+		begin["panicked"] = false
+		begin["st"] = project(space, n)
+		begin["inst"], begin["dem"] = inst, dem
+		out.Emit(begin)
+		k, ran, busy := 0, 0, false
+		seen := [][]int{}
+		var gerr error
+		cur := n
+		cur.onVisit = func(a boson.Address) {
+			if busy {
+				return
+			}
+			k++
+			seen = append(seen, pairOf(space, a))
+			busy = true
+			for _, g := range gates {
+				if g.k == k && gerr == nil {
+					ran++
+					gerr = step(g.o, k)
+				}
+			}
+			busy = false
+		}
+		defer func() { cur.onVisit = nil }()
+		call()
+		return kit.Ev{"conc": true, "visits": k, "seen": seen, "left": len(gates) - ran}, gerr
+	}
+	step = func(op map[string]interface{}, during int) error {
 		name := kit.Str(op, "op")
 		ev := kit.Ev{"op": name}
+		if during > 0 {
+			ev["during"] = during
+		}
 		var perr error
 		panicked, msg := kit.Guard(func() {
 			switch name {
@@ -367,7 +438,21 @@ func runScenario(sc kit.Scenario, out *kit.Out) error {
 				}
 				incl, filt := kit.Bool(op, "incl"), kit.Bool(op, "filt")
 				ev["t"], ev["skip"], ev["incl"], ev["filt"] = tp, sp, incl, filt
-				a, err := n.kad.ClosestPeer(t, incl, topology.Filter{Reachable: filt}, skip...)
+				var a boson.Address
+				var err error
+				call := func() { a, err = n.kad.ClosestPeer(t, incl, topology.Filter{Reachable: filt}, skip...) }
+				if _, ok := op["gates"]; ok && during == 0 {
+					extra, e := gated(op, kit.Ev{"t": tp, "skip": sp, "incl": incl, "filt": filt}, call)
+					if e != nil {
+						perr = e
+						return
+					}
+					for k, v := range extra {
+						ev[k] = v
+					}
+				} else {
+					call()
+				}
 				ev["err"] = errName(err)
 				if err == nil {
 					ev["peer"] = pairOf(space, a)
@@ -387,7 +472,21 @@ func runScenario(sc kit.Scenario, out *kit.Out) error {
 				}
 				cnt, filt := kit.Int(op, "n"), kit.Bool(op, "filt")
 				ev["t"], ev["skip"], ev["n"], ev["filt"] = tp, sp, cnt, filt
-				as, err := n.kad.ClosestPeers(t, cnt, topology.Filter{Reachable: filt}, skip...)
+				var as []boson.Address
+				var err error
+				call := func() { as, err = n.kad.ClosestPeers(t, cnt, topology.Filter{Reachable: filt}, skip...) }
+				if _, ok := op["gates"]; ok && during == 0 {
+					extra, e := gated(op, kit.Ev{"t": tp, "skip": sp, "n": cnt, "filt": filt}, call)
+					if e != nil {
+						perr = e
+						return
+					}
+					for k, v := range extra {
+						ev[k] = v
+					}
+				} else {
+					call()
+				}
 				ev["err"] = errName(err)
 				ps := [][]int{}
 				for _, a := range as {
@@ -408,6 +507,12 @@ func runScenario(sc kit.Scenario, out *kit.Out) error {
 		ev["st"] = project(space, n)
 		ev["inst"], ev["dem"] = inst, dem
 		out.Emit(ev)
+		return nil
+	}
+	for _, op := range sc.Ops {
+		if err := step(op, 0); err != nil {
+			return err
+		}
 	}
 	return nil
 }
